@@ -22,3 +22,24 @@ Proof.
   cbn [p1]. rewrite (has_prefix_app "$merge:" k).
   change 7 with (String.length "$merge:"). rewrite drop_app, H. cbn [bind]. exact IH.
 Qed.
+
+(* mutual reference cycle of length two through $merge: strings *)
+Lemma p1_two_cycle o cur S a b :
+  get o S cur (VStr a) = Ok (VStr ("$merge:" ++ b), (cur, [a])) ->
+  get o S cur (VStr b) = Ok (VStr ("$merge:" ++ a), (cur, [b])) ->
+  forall fuel, (exists e, p1 o cur fuel S None (VStr ("$merge:" ++ a)) = Err e) /\ (exists e, p1 o cur fuel S None (VStr ("$merge:" ++ b)) = Err e).
+Proof.
+  intros Ha Hb. induction fuel as [|f [IHa IHb]]; [split; eexists; reflexivity|].
+  split; cbn [p1]; rewrite (has_prefix_app "$merge:" _); change 7 with (String.length "$merge:"); rewrite drop_app.
+  - rewrite Ha. cbn [bind]. exact IHb.
+  - rewrite Hb. cbn [bind]. exact IHa.
+Qed.
+
+(* a $replace host that refers to itself *)
+Lemma p1_replace_self o cur S m r org :
+  lookup "$merge" m = None -> lookup "$replace" m = Some r -> get o S cur r = Ok (VMap m, org) ->
+  forall fuel loc, exists e, p1 o cur fuel S loc (VMap m) = Err e.
+Proof.
+  intros H1 H2 Hg. induction fuel as [|f IH]; intro loc; [eexists; reflexivity|].
+  cbn [p1]. rewrite H1, H2, Hg. cbn [bind]. apply IH.
+Qed.
